@@ -357,6 +357,22 @@ func TestC09(t *testing.T) {
 			gen.Fail(t, gen.Violation{Key: "serialise-modifies-message", Oracle: "every well-formed quote message survives serialise-then-parse unchanged", Detail: d, Replay: rp})
 			return
 		}
+		// what was returned stays what it was while OTHER messages are serialised and parsed (no output buffer is shared)
+		q2 := gen.RandomRefQuote(s, (authLen+7)%300, (chainLen+13)%700, extraLen)
+		if v0 := gen.Call(func() error {
+			_, err := abi.QuoteToAbiBytes(q2.ToProto())
+			if err == nil {
+				_, err = abi.QuoteToProto(q2.Encode())
+			}
+			return err
+		}); v0.Panicked() || !bytes.Equal(got, want) {
+			d := v0.Panic
+			if d == "" {
+				d = "bytes returned for the first message changed when another message was serialised: " + firstDiff(got, want)
+			}
+			gen.Fail(t, gen.Violation{Key: "serialised-bytes-change-later", Oracle: "serialising reproduces the quote byte for byte (and what was returned is the caller's)", Detail: d, Replay: rp})
+			return
+		}
 		// a second serialisation of the same message gives the same bytes
 		var got2 []byte
 		if v1 := gen.Call(func() error {
